@@ -257,6 +257,12 @@ func (c *Ctx) mustPassEv(fn *ssa.Function, sinks []ssa.Instruction, spec PassSpe
 				ok = true
 			}
 		}
+		if !ok {
+			// second look, path-sensitively (flag variables, conditions tested twice)
+			if ps := psReach(fn, []*ssa.BasicBlock{fn.Blocks[0]}, pc.cut); !ps[b] {
+				ok = true
+			}
+		}
 		if ok {
 			out = append(out, SinkVerdict{s, true, ""})
 		} else {
